@@ -103,7 +103,7 @@ class ThermochemRawData(ThermochemBase):
 
         return ND_Cp
 
-    def get_SoR(self, T):
+    def get_SoR(self, T, S_elements=None):
         """Return non-dimensional standard state entropy |eq_ND_S_T|."""
         self.check_range(T)
         T_a = self.T_ref
